@@ -1,8 +1,20 @@
 import Drv.C19
+import Drv.Kv
+import Drv.Fmt
+import Drv.C14
+import Drv.C12
+import Drv.C18
+import Drv.C20
 import Drv.C13
 /-! `drv <model>`: executable models behind a one-line-in, one-line-out protocol. -/
 def main (args : List String) : IO UInt32 := do
   match args with
   | ["c19"] => Drv.pureLoop Drv.C19.step; return 0
+  | ["fmt"] => Drv.Fmt.main; return 0
+  | ["kv"] => Drv.loop Drv.Kv.step Drv.Kv.init; return 0
+  | ["c14"] => Drv.loop Drv.C14.step Drv.C14.Form.none; return 0
+  | ["c12"] => Drv.loop Drv.C12.step Drv.C12.init; return 0
+  | ["c18"] => Drv.loop Drv.C18.step {}; return 0
+  | ["c20"] => Drv.loop Drv.C20.step Drv.C20.St.none; return 0
   | ["c13"] => Drv.pureLoop Drv.C13.step; return 0
   | _ => IO.eprintln "usage: drv <model>"; return 2
